@@ -436,6 +436,14 @@ def make_aux_plan(check, seed, run, engine, tier="quick"):
     # set_params): the C11 histories, warm start forced for C05
     plan = plan_C11(seed, run, engine, tier)
     plan["check"] = check
+    if check == "C02":
+        # "a converged skglm solver *or estimator* attains ... the reference optimum": the
+        # estimator histories of C11 with ample budgets
+        new = plan["ops"][0]
+        for k_, v_ in (("max_iter", 200), ("max_epochs", 3000)):
+            if k_ in new["args"] and new["cls"] not in ("SqrtLasso", "CoxEstimator", "SparseLogisticRegression"):
+                new["args"][k_] = v_
+        return plan
     if check == "C05":
         new = plan["ops"][0]
         if "warm_start" in new["args"]:
